@@ -123,7 +123,9 @@ class Valve(BranchWInternalsComponent):
                 pipe_pit = branch_pit[f:t, :]
                 pipe_idx_lookup = get_lookup(net, "branch", "index")['pipe']
                 mask_p_uni = internal_node_number.astype(bool)
-                pipes = pipe_idx_lookup[to_elements[mask_p_uni]]
+                # the lookup counts from the start of the pipe rows in the branch table, the internal
+                # structure of the pipes from zero
+                pipes = pipe_idx_lookup[to_elements[mask_p_uni]] - f
 
                 internal = net['_lookups']['internal_branches']['pipe']
                 fn_pipe = pipe_pit[internal[pipes, 0], FROM_NODE]
